@@ -26,6 +26,8 @@ class Vfs:
         self.faults: list[dict] = []  # {"call": "open", "path": p or None, "nth": k, "errno": EIO, "fired": False}
         self.log_events = False
         self.written: dict[str, bytes] = {}
+        self.clock = 1_700_000_000  # logical modification clock: every write ticks it
+        self.mtimes: dict[str, int] = {}
 
     # ---- construction --------------------------------------------------------------------
     def mkdir(self, path: str) -> None:
@@ -43,6 +45,8 @@ class Vfs:
         if isinstance(data, str):
             data = data.encode("utf-8")
         self.nodes[path] = ("f", data)
+        self.clock += 1
+        self.mtimes[path] = self.clock
 
     def symlink(self, path: str, target: str) -> None:
         path = posixpath.normpath(path)
@@ -150,6 +154,63 @@ class Vfs:
         r, ex = self._resolve(p)
         return r
 
+    # ---- stat family (not used by the pinned tree; present so that a change that starts to stat files still runs
+    #      against the simulated file system instead of the real one) -------------------------------------
+    def _stat(self, path, follow=True):
+        import stat as st
+
+        p = self._abs(path)
+        self._event("stat", p)
+        r, ex = self._resolve(p, follow_last=follow)
+        if not ex:
+            raise FileNotFoundError(errno.ENOENT, os.strerror(errno.ENOENT), p)
+        node = self.nodes[r]
+        if node[0] == "d":
+            mode, size = st.S_IFDIR | 0o755, 4096
+        elif node[0] == "l":
+            mode, size = st.S_IFLNK | 0o777, len(node[1])
+        else:
+            mode, size = st.S_IFREG | 0o644, len(node[1])
+        mt = self.mtimes.get(r, 1_700_000_000)
+        return os.stat_result((mode, abs(hash(r)) % (1 << 31), 1, 1, 0, 0, size, mt, mt, mt))
+
+    def stat(self, path, *a, **kw):
+        return self._stat(path, kw.get("follow_symlinks", True))
+
+    def lstat(self, path, *a, **kw):
+        return self._stat(path, False)
+
+    def isfile(self, path):
+        try:
+            r, ex = self._resolve(self._abs(path))
+        except TypeError:
+            return False
+        return ex and self.nodes[r][0] == "f"
+
+    def isdir(self, path):
+        try:
+            r, ex = self._resolve(self._abs(path))
+        except TypeError:
+            return False
+        return ex and self.nodes[r][0] == "d"
+
+    def islink(self, path):
+        r, ex = self._resolve(self._abs(path), follow_last=False)
+        return ex and self.nodes[r][0] == "l"
+
+    def getmtime(self, path):
+        return float(self._stat(path).st_mtime)
+
+    def getsize(self, path):
+        return self._stat(path).st_size
+
+    def listdir(self, path="."):
+        r, ex = self._resolve(self._abs(path))
+        if not ex or self.nodes[r][0] != "d":
+            raise FileNotFoundError(errno.ENOENT, os.strerror(errno.ENOENT), path)
+        pre = r.rstrip("/") + "/"
+        return sorted({k[len(pre):].split("/")[0] for k in self.nodes if k.startswith(pre) and k != r})
+
     def getcwd(self) -> str:
         self._event("getcwd", self.cwd)
         return self.cwd
@@ -197,6 +258,11 @@ class Vfs:
         posixpath.realpath = self.realpath
         os.getcwd = self.getcwd
         util.open = self.open  # open_utf8() looks `open` up in its module globals first
+        for mod in (os.path, posixpath):
+            mod.isfile, mod.isdir, mod.islink = self.isfile, self.isdir, self.islink
+            mod.getmtime, mod.getsize = self.getmtime, self.getsize
+            mod.lexists = lambda p: self._resolve(self._abs(p), follow_last=False)[1]
+        os.stat, os.lstat, os.listdir = self.stat, self.lstat, self.listdir
         return self
 
 
@@ -224,6 +290,8 @@ class _VfsWriter:
 
     def flush(self):
         self.vfs.nodes[self.path] = ("f", bytes(self.buf))
+        self.vfs.clock += 1
+        self.vfs.mtimes[self.path] = self.vfs.clock
 
     def close(self):
         if not self.closed:
